@@ -27,8 +27,19 @@ Fixpoint headers_before_first_send (c : list (actor * op * res)) : bool :=
   | _ :: r => headers_before_first_send r
   end.
 
+(* Header() looks at the channel once: the first call, when no header frame has been seen, may take a
+   message off and keep it until the next receive hands it over; later calls return what is known.
+   0: no Header() call yet; 1: the first call has been made and no message delivered since; 2: after that *)
+Fixpoint peek_state (c : list (actor * op * res)) (st : nat) : nat :=
+  match c with
+  | [] => st
+  | (_, CHeader, _) :: r => peek_state r (match st with O => 1%nat | _ => st end)
+  | (_, CRecv, RMsg _) :: r => peek_state r (match st with S O => 2%nat | _ => st end)
+  | _ :: r => peek_state r st
+  end.
+
 Definition client_slack (resp_stream : bool) (rounds : list round) : Z :=
-  (if header_called (completed rounds) && negb (headers_before_first_send (completed rounds)) then 1 else 0) +
+  (if negb (headers_before_first_send (completed rounds)) && Nat.eqb (peek_state (completed rounds) 0) 1 then 1 else 0) +
   (if negb resp_stream && recv_started rounds then 2 else 0).
 
 Definition bound_ok (resp_stream : bool) (rounds : list round) : bool :=
@@ -36,5 +47,25 @@ Definition bound_ok (resp_stream : bool) (rounds : list round) : bool :=
   (Z.of_nat (length (client_sent_ok c)) - Z.of_nat (length (handler_got c)) <=? 1) &&
   (Z.of_nat (length (handler_sent_ok c)) - Z.of_nat (length (client_got c)) <=? 1 + client_slack resp_stream rounds).
 
+(* which actors have an operation in flight at the end of a trace *)
+Fixpoint busy_after (rounds : list round) (busy : list actor) : list actor :=
+  match rounds with
+  | [] => busy
+  | r :: rest =>
+      let b1 := match r_start r with Call a _ => a :: busy | _ => busy end in
+      busy_after rest (filter (fun a => negb (existsb (fun ar => actor_eqb (fst ar) a) (r_rets r))) b1)
+  end.
+
+(* a blocked send is released when the peer finishes or the context ends: at no settled point after
+   the handler function returned, or after the context ended, is a client send still in flight *)
+Definition released_ok (rounds : list round) : bool :=
+  let handler_returned := existsb (fun ao => match ao with (_, HReturn _) => true | _ => false end) (started rounds) in
+  if handler_returned || ctx_ended rounds
+  then negb (existsb (fun a => match a with CS => true | _ => false end) (busy_after rounds []))
+  else true.
+
 Definition oracle_case (k : case) : bool :=
-  match k with Sched _ rs rounds p _ => negb p && forallb (bound_ok rs) (prefixes rounds) | GoChecked _ _ ok => ok end.
+  match k with
+  | Sched _ rs rounds p _ => negb p && forallb (fun pre => bound_ok rs pre && released_ok pre) (prefixes rounds)
+  | GoChecked _ _ ok => ok
+  end.
